@@ -1,3 +1,135 @@
-/- C11 — property theorems (stub: the property is not claimed yet). -/
+/-
+  C11 — Formatting preserves the document: structure, attributes, text, preformatted.
+
+  Property theorems only.  Model: AHP/Model/Format.lean (the four formatter classes, the element serialiser with
+  `_indent`, the plain parser's handlers); lemmas and specification functions: AHP/Lemmas/Format.lean, Squeeze.lean.
+
+  All statements are about **every token sequence** the tokenizer may hand to the `handle_*` callbacks (no
+  well-formedness assumed: stray and missing end tags, several roots, text outside the root, …) and every
+  configuration `cfg` (element class normal/slim, indent unit, mini).  The only hypothesis is the one the property
+  itself makes (DESIGN §8 #21): no element of the input carries the reserved name of the invisible wrapper.
+
+  String level (`…_partial` below): the step from the output *text* back to tokens needs the character-level lexer
+  (Model/Lexer of C01/C02, built by another group); what is missing is stated at each partial theorem.
+-/
+import AHP.Lemmas.Format
 namespace AHP.C11
+open AHP AHP.Fmt
+
+/-! #### table obligations: the sets of constants.py the statements below are about -/
+
+theorem preformatted_table : Gen.preformattedTags = ["code", "pre"] := by decide
+theorem preserve_table : Gen.preserveContentsTags = ["code", "pre", "script", "style"] := by decide
+theorem wrapper_table : Gen.invisibleRootTag = "xxxblank" := by decide
+/-- pre/code content is preserved content; the wrapper is neither void nor preformatted nor preserved -/
+theorem tables_consistent :
+    (∀ n, isPre n = true → isPreserve n = true)
+    ∧ isVoid wrapper = false ∧ isPre wrapper = false ∧ isPreserve wrapper = false := by
+  refine ⟨?_, by decide, by decide, by decide⟩
+  intro n h
+  simp only [isPre, isPreserve, preTags, preserveTags, preformatted_table, preserve_table, List.map_cons, List.map_nil,
+    List.contains_cons, List.contains_nil, Bool.or_false, Bool.or_eq_true, beq_iff_eq] at h ⊢
+  rcases h with h | h
+  · exact Or.inl h
+  · exact Or.inr (Or.inl h)
+
+/-! #### C11a — same elements, nesting, attributes, doctype; same text modulo white space -/
+
+/-- The data rule only moves white space: the text without white space is unchanged … -/
+theorem squeeze_preserves_text (s : Str) : eraseWS (squeeze s) = eraseWS s := eraseWS_squeeze s
+
+/-- … and a piece that is more than white space is never dropped. -/
+theorem squeeze_keeps_nonblank (s : Str) (h : blank s = false) : blank (squeeze s) = false := squeeze_not_blank s h
+
+/-- **C11a (tree level).**  For every token sequence and configuration: the formatter fails exactly when the plain
+    parser fails (same error), and otherwise the tree it serialises has the same doctype and is, modulo formatting,
+    the plain parser's tree: same elements in the same nesting with the same attribute store and self-closing flag,
+    reference and comment blocks verbatim, data blocks equal after removing all white space (`skel`). -/
+theorem formatter_preserves_document (cfg : Cfg) (toks : List Tok) (h : NoWrapperStart toks) :
+    (match Plain.feed toks with
+     | .ok ps => ∃ fs, feed cfg toks = .ok fs ∧ fs.doctype = ps.doctype ∧ fs.root.map skel = ps.root.map skel
+     | .error e => feed cfg toks = .error e) := by
+  have := format_tree cfg toks h
+  cases hp : Plain.feed toks with
+  | error e => simpa [hp] using this
+  | ok ps =>
+    rw [hp] at this
+    obtain ⟨fs, h1, h2, h3⟩ := this
+    refine ⟨fs, h1, h3, ?_⟩
+    rw [h2]
+    cases ps.root with
+    | none => rfl
+    | some r => simp [dec0, skel_decorate]
+
+/-- The stronger form the other statements are derived from: the formatter's tree is a *function of the plain
+    parser's tree* — `decorate` walks it top-down and decides per node from its ancestors alone. -/
+theorem formatter_tree_is_decorated (cfg : Cfg) (toks : List Tok) (h : NoWrapperStart toks) :
+    feed cfg toks = mapOk (decSt cfg) (Plain.feed toks) := feed_dec cfg toks h
+
+/-- `getHTML` of the formatter is the serialisation of that tree (definitionally; stated for the record). -/
+theorem format_is_serialised_tree (cfg : Cfg) (toks : List Tok) (s : St) (h : feed cfg toks = .ok s) :
+    format cfg toks = docHTML s.doctype s.root := by
+  simp [format, h]
+
+/-! #### C11b — below pre/code everything is reproduced exactly; script/style content is kept -/
+
+/-- **C11b.**  In a context with a pre/code ancestor (`c.inPre ≠ 0`) `decorate` changes nothing but the element class:
+    every block — including text in elements nested arbitrarily deep — is kept character for character and no
+    element gets an `_indent`. -/
+theorem below_pre_exact (cfg : Cfg) (c : Ctx) (p : Str) (h : c.inPre ≠ 0) (t : Node) :
+    decorate cfg c p t = rekind cfg.kind t := by
+  have := decorate_inPre cfg c p h t
+  rw [this.1, this.2]
+
+/-- the children of a pre/code element are in such a context, wherever the element itself sits -/
+theorem pre_children_exact (cfg : Cfg) (c : Ctx) (p n : Str) (hn : isPre n = true) (k : Kind) (st : AStore) (sc : Bool)
+    (ind : Str) (kids : List Node) :
+    decorate cfg c p (.elem k n st sc ind kids) = .elem cfg.kind n st sc (indentAt cfg c) (rekindL cfg.kind kids) := by
+  have hc : (c.push n).inPre ≠ 0 := by simp [Ctx.push, hn]
+  have := decorateL_inPre cfg (c.push n) n hc kids
+  simp only [decorate]
+  rw [this.1, this.2]
+
+/-- data directly inside script/style (and pre/code) is never rewritten -/
+theorem preserved_parent_text_exact (cfg : Cfg) (c : Ctx) (p : Str) (hp : isPreserve p = true) (v : Bool) (s : Str) :
+    decorate cfg c p (.text v s) = .text v s := by
+  cases v <;> simp [decorate, hp]
+
+/-- references and comments are never rewritten, wherever they are -/
+theorem verbatim_blocks_exact (cfg : Cfg) (c : Ctx) (p : Str) (s : Str) :
+    decorate cfg c p (.text true s) = .text true s := by
+  simp [decorate]
+
+/-- What the serialiser adds before the end tag of a (not self-closing) element is its `_indent` or nothing; for
+    script/style this is "the line break and indentation the pretty printers place before the end tag". -/
+theorem end_tag_text (n ind : Str) (kids : List Node) :
+    endTag n false ind kids = ind ++ str "</" ++ n ++ str ">" ∨ endTag n false ind kids = str "</" ++ n ++ str ">" := by
+  rcases endTag_cases n ind kids with h | h
+  · exact Or.inl h
+  · exact Or.inr h.1
+
+/-! #### non-vacuity -/
+
+/-- a document with a nested preformatted span, text before the root's end and an implicit close -/
+def sampleToks : List Tok :=
+  [.start (str "div") [(str "class", some (str " a  b "))], .data (str " x \n"), .start (str "pre") [],
+   .start (str "span") [], .data (str "  y  "), .end_ (str "pre"), .entity (str "amp"), .end_ (str "div")]
+
+example : NoWrapperStart sampleToks := by decide
+example : okIs (format (mkCfg .pretty (.str (str "  ")) false) sampleToks)
+    "\n<div class=\"a b\" > x \n  <pre ><span >  y  </span></pre>&amp;\n</div>" = true := by decide
+example : okIs (Plain.html sampleToks) "<div class=\"a b\" > x \n<pre ><span >  y  </span></pre>&amp;</div>" = true := by decide
+
+/-!
+  #### What is partial
+
+  * `reparse_partial` (not stated as a theorem): "the output *text* parses back to that tree" is
+    `Plain.feed (lex (format cfg toks)) ≈ Plain.feed toks` for the real tokenizer `lex`.  Missing: the character-level
+    lexer and its round-trip lemma on serialiser output (C01's `lexStrict (render ts) = some ts`, another group's
+    Model/Lexer), plus the fact that the white-space-only text the `_indent`s add vanishes under `skel`.  The tie
+    checks it on every case (oracle `preserves`: the real parser re-reads the real formatter's output).
+  * C11c (`getFormattedHTML`/`getMiniHTML` = formatter ∘ `getHTML`): these two methods are compositions with the
+    tokenizer in between; checked by the oracle (`convenience`) and the correspondence stream (`via: parser`).
+-/
+
 end AHP.C11
